@@ -232,6 +232,88 @@ var genScenarios = map[string]func(g *Gen) []scriptStep{
 			pullStep(sS1, 10), pullStep(sS2, 10),
 		}
 	},
+	// a snapshot taken after out-of-order acks (non-empty acknowledged-message list), a sibling
+	// subscription of the same topic still holding those messages, seeks of either to it (C13, C02)
+	"snapshot-bystander": func(g *Gen) []scriptStep {
+		seekWho := g.pick([]string{sS0, sS0, sS1})
+		return []scriptStep{
+			opStep(&Op{Kind: "CreateTopic", Name: sT0}),
+			subStep(&SubReq{Name: sS0, Topic: sT0}), subStep(&SubReq{Name: sS1, Topic: sT0, Ordered: g.chance(0.3)}),
+			pubStep(sT0, "", "k1", ""), pubStep(sT0, "k1"),
+			pullStep(sS0, 10),
+			func(g *Gen, d *Dump, vnow int64) Action {
+				// acknowledge everything but the oldest message on s0
+				s := d.subByName(sS0)
+				var rows []DelRow
+				for _, x := range d.Dels {
+					if s != nil && x.Sub == s.ID && x.Completed == nil && x.Attempts > 0 {
+						rows = append(rows, x)
+					}
+				}
+				var ids []string
+				for _, x := range rows {
+					oldest := true
+					for _, y := range rows {
+						if y.Published < x.Published {
+							oldest = false
+						}
+					}
+					if !oldest {
+						ids = append(ids, x.ID.String())
+					}
+				}
+				return Action{Op: &Op{Kind: "Ack", Name: sS0, AckIDs: ids}}
+			},
+			opStep(&Op{Kind: "CreateSnap", Name: "projects/p/snapshots/n0", Name2: sS0}),
+			pubStep(sT0, ""), pullStep(sS0, 10), ackLeased(sS0, "Ack", 0, false),
+			opStep(&Op{Kind: "SeekSnap", Name: seekWho, Name2: "projects/p/snapshots/n0"}),
+			pullStep(sS1, 10), pullStep(sS0, 10),
+		}
+	},
+	// same-key replay (C05): the successor has been delivered once when a seek brings its
+	// acknowledged predecessor back; the successor's lease lapses while the predecessor is
+	// outstanding again
+	"ordered-replay": func(g *Gen) []scriptStep {
+		return []scriptStep{
+			opStep(&Op{Kind: "CreateTopic", Name: sT0}),
+			subStep(&SubReq{Name: sS0, Topic: sT0, Ordered: true, Retry: retry(time.Second)}),
+			pubStep(sT0, "k1"), pullStep(sS0, 10), ackLeased(sS0, "Ack", 0, false),
+			pubStep(sT0, "k1", "k2", "k1"),
+			pullStep(sS0, 10), // the second k1 message (and the k2 one) get their first delivery
+			func(g *Gen, d *Dump, vnow int64) Action {
+				return Action{Op: &Op{Kind: "SeekTime", Name: sS0, Target: vnow - int64(time.Hour)}}
+			},
+			pastLeases(sS0),
+			pullStep(sS0, int32(1+g.r.Intn(3))), pullStep(sS0, 10),
+			ackLeased(sS0, "Ack", 0, true), pastLeases(sS0), pullStep(sS0, 10),
+		}
+	},
+	// every optional block set to a non-default value, then replaced one field at a time by a
+	// request that leaves it unset: the documented defaults must be re-applied (C17)
+	"config-reset-each-field": func(g *Gen) []scriptStep {
+		full := &SubReq{Name: sS0, Topic: sT0, HasExp: true, TTL: dptr(3 * time.Hour), MsgTTL: dptr(25 * time.Minute), Ordered: true,
+			Labels: map[string]string{"a": "b"}, Filter: `attributes:x`, Retry: &[2]*time.Duration{dptr(3 * time.Second), dptr(100 * time.Second)},
+			DL: dl(sT1, 3), Push: &PushReq{Endpoint: "http://127.0.0.1:1/x"}}
+		s := []scriptStep{
+			opStep(&Op{Kind: "CreateTopic", Name: sT0}), opStep(&Op{Kind: "CreateTopic", Name: sT1}),
+			subStep(full), opStep(&Op{Kind: "GetSub", Name: sS0}),
+		}
+		paths := []string{"dead_letter_policy", "retry_policy", "expiration_policy", "message_retention_duration", "labels", "filter", "push_config", "enable_message_ordering"}
+		g.r.Shuffle(len(paths), func(i, j int) { paths[i], paths[j] = paths[j], paths[i] })
+		for _, p := range paths {
+			q := &SubReq{Name: sS0, Topic: sT0}
+			switch p {
+			case "dead_letter_policy":
+				q.DL = dl(sT1, 0) // a topic but no attempt count: the default of 5
+			case "retry_policy":
+				q.Retry = &[2]*time.Duration{nil, dptr(50 * time.Second)}
+			case "expiration_policy":
+				q.HasExp = true // present but empty: the default ttl
+			}
+			s = append(s, opStep(&Op{Kind: "UpdateSub", Sub: q, Paths: []string{p}}), opStep(&Op{Kind: "GetSub", Name: sS0}))
+		}
+		return s
+	},
 	// a seek that revives acknowledged messages late in their retention (C13, C14)
 	"seek-revive-late": func(g *Gen) []scriptStep {
 		return []scriptStep{
@@ -299,6 +381,8 @@ var genScenarios = map[string]func(g *Gen) []scriptStep{
 				}
 				return Action{Op: &Op{Kind: "Job", Job: g.pick([]string{"PruneCompletedDeliveries", "PruneCompletedMessages", "PruneExpiredDeliveries"}), MinAge: 0, MaxN: 1}}
 			},
+			// the acknowledged predecessor is pruned while its same-key successors are outstanding
+			opStep(&Op{Kind: "Job", Job: "PruneCompletedDeliveries", MinAge: 0, MaxN: 100}),
 			func(g *Gen, d *Dump, vnow int64) Action {
 				if g.chance(0.3) {
 					// purge forward first: the links of what it completes must survive a later replay
@@ -328,7 +412,7 @@ var genScenarios = map[string]func(g *Gen) []scriptStep{
 	},
 }
 
-var scenarioNames = []string{"dl-deleted-topic", "dl-ordered-target", "dl-filtered-target", "seek-revive-late", "idle-expired-live", "filter-replaced", "ordered-chain", "lease-changes"}
+var scenarioNames = []string{"ordered-replay", "dl-deleted-topic", "dl-ordered-target", "dl-filtered-target", "snapshot-bystander", "seek-revive-late", "idle-expired-live", "filter-replaced", "ordered-chain", "lease-changes"}
 
 // scenariosFor lists the templates a generator profile may start with
 func scenariosFor(profile string) []string {
@@ -336,11 +420,11 @@ func scenariosFor(profile string) []string {
 	case "delivery", "general", "prune":
 		return scenarioNames
 	case "seek":
-		return []string{"seek-revive-late", "ordered-chain"}
+		return []string{"seek-revive-late", "ordered-chain", "snapshot-bystander", "ordered-replay"}
 	case "names":
 		return []string{"idle-expired-live"}
 	case "config":
-		return []string{"filter-replaced", "idle-expired-live"}
+		return []string{"filter-replaced", "idle-expired-live", "config-reset-each-field", "config-reset-each-field"}
 	case "c15":
 		// no reviving seeks in the paired histories
 		return []string{"dl-deleted-topic", "dl-ordered-target", "dl-filtered-target", "idle-expired-live", "filter-replaced"}
